@@ -156,5 +156,11 @@ def fill(claim, na):
         TB + "scipy quadrature accuracy is observed (2e-7), not proved; integrability of the basis integrands is a hypothesis of the linearity theorem; the entry is 0 by construction for a convolution point >= 1-1e-10; scale-variation orders are C05's, the local-part consistency C03's, the basis C19's.",
         "DESIGN.md 6/C01",
     )
-    for p in ["C04"]:
-        na(p, "check not yet built in this round (design in DESIGN.md section 6); will be claimed once its Lean model, theorems and correspondence exist")
+    claim(
+        "C04",
+        "proof",
+        "translator (Python ast -> Lean KExpr for the NLO kernels and, per live light class, the source expressions of its distribution coefficients; regenerated and Float-validated each run) + Lean 4 theorems over the reals (closed forms for all 0<z<1 and nf; exact sum-rule relations via Mathlib integrals) + numerical evaluation of closed forms and first moments on the real functions",
+        "PARTIAL for the sum rules. Proved on the terms regenerated from the source, for all 0<z<1 and all nf: the NLO quark and gluon coefficients of F2, FL, F3, g1 of all 15 (class, NLO) sites equal the published closed forms (regular parts and the delta / 1/(1-z)_+ / log(1-z)/(1-z)_+ coefficients, incl. -(pi^2/3+9/2)); every NLO site is classified and readable; the plus-distribution has no first moment; GLS(NLO)-Adler(NLO) = -3CF = -4 exactly; Bjorken(NLO)=GLS(NLO). Evaluated numerically on the real callables (all sites, nf=3..6, z from 1e-7 to 1-1e-8): closed forms to 1e-9; Adler (F2 nu-nubar non-singlet), GLS (F3 non-singlet) and Bjorken (g1 non-singlet) first moments at every available order against 0 resp. the Larin-Vermaseren series with per-order tolerances equal to the published accuracy of the parametrisations.",
+        TB + "The Adler value at NLO needs int_0^1 ln z/(1-z) = -pi^2/6 (not in Mathlib) and beyond NLO the coefficients are fitted parametrisations: those sum rules are numerical observations with tolerances (Adler 1e-9 / 2e-3 / 0.3; GLS, Bjorken 1e-9 / 3e-2 / 0.3), not theorems. CF=4/3, TR=1/2, pi are hypotheses (StdC). The light-by-light d_abc term of GLS lives in a separate flavour class and is not part of the non-singlet check.",
+        "DESIGN.md 6/C04",
+    )
